@@ -10,8 +10,8 @@ Line-protocol driver of the C07 interpolation model (header `spaceinterp`).
   interp2 <from> <to> <s> <u>        -> s3 <state> | r <state> | direct <state>
 
 `r` = interpolate(from,to,t); `sb` = satisfiesBounds(r); `ef`/`et` = equalStates(r,from)/(r,to);
-`r`/`s3`/`direct` follow the tree: the SO(2) clause as repaired by the F61 fix (`interpolateFix61`: both branches
-wrapped).  Witnesses of former code, for labelling a reverted tree: `old61`/`*_old61` = before the F61 fix (`interpolate`:
+`r`/`s3`/`direct` follow the tree: `interpolateTree` = the SO(2) clause as repaired by the F61 fix (both branches
+wrapped) plus the Mobius gluing after the cylinder branch (F159 repair; `old159` = without it).  Witnesses of former code, for labelling a reverted tree: `old61`/`*_old61` = before the F61 fix (`interpolate`:
 short branch not wrapped), `old` = before the F4 fix (`v > pi`).
 `interp2`: s3 = interpolate(from,to,s); r = interpolate(s3,to,u); direct = interpolate(from,to,s+(1-s)*u).
 `oob-input` when from or to is not in bounds.  States are printed as their leaf values (doubles as u64 bit patterns).
@@ -94,10 +94,11 @@ def step (st : DSt) (ts : List String) : DSt × String :=
         if !(inBounds sp a && inBounds sp b) then (st, "oob-input") else
         -- the tree = the repaired SO(2) clause (F61 fix committed): `interpolateFix61`; witnesses of the former
         -- code: `old61` = before the F61 fix (short branch not wrapped), `old` = before the F4 fix (`v > pi`)
-        let r := interpolateFix61 sp a b t
+        let r := interpolateTree sp a b t
         let o := interpolateOld sp a b t
         let p := interpolate sp a b t
-        (st, s!"r {showSt r} | sb {b01 (inBounds sp r)} | ef {b01 (eqStates sp r a)} | et {b01 (eqStates sp r b)} | old {showSt o} | old61 {showSt p}")
+        let q := interpolateFix61 sp a b t
+        (st, s!"r {showSt r} | sb {b01 (inBounds sp r)} | ef {b01 (eqStates sp r a)} | et {b01 (eqStates sp r b)} | old {showSt o} | old61 {showSt p} | old159 {showSt q}")
       | none => (st, "bad-op")
   | "interp2" :: rest =>
     match st with
@@ -111,13 +112,16 @@ def step (st : DSt) (ts : List String) : DSt × String :=
         if r.isEmpty then pure (a, b, s, u) else none) with
       | some (a, b, s, u) =>
         if !(inBounds sp a && inBounds sp b) then (st, "oob-input") else
-        let s3 := interpolateFix61 sp a b s
-        let r := interpolateFix61 sp s3 b u
-        let d := interpolateFix61 sp a b (s + (1 - s) * u)
+        let s3 := interpolateTree sp a b s
+        let r := interpolateTree sp s3 b u
+        let d := interpolateTree sp a b (s + (1 - s) * u)
         let s3p := interpolate sp a b s
         let rp := interpolate sp s3p b u
         let dp := interpolate sp a b (s + (1 - s) * u)
-        (st, s!"s3 {showSt s3} | r {showSt r} | direct {showSt d} | s3_old61 {showSt s3p} | r_old61 {showSt rp} | direct_old61 {showSt dp}")
+        let s3q := interpolateFix61 sp a b s
+        let rq := interpolateFix61 sp s3q b u
+        let dq := interpolateFix61 sp a b (s + (1 - s) * u)
+        (st, s!"s3 {showSt s3} | r {showSt r} | direct {showSt d} | s3_old61 {showSt s3p} | r_old61 {showSt rp} | direct_old61 {showSt dp} | s3_old159 {showSt s3q} | r_old159 {showSt rq} | direct_old159 {showSt dq}")
       | none => (st, "bad-op")
   | _ => (st, "bad-op")
 
